@@ -1,6 +1,7 @@
 package main
 
 import (
+	"berty.tech/go-orbit-db/stores/basestore"
 	"context"
 	"fmt"
 	"os"
@@ -240,6 +241,44 @@ done:
 			r.res.Comparisons++
 			if n > 0 && (gp != gm || gm > n) {
 				r.violate("rest", fmt.Sprintf("after reload with %d entries: progress %d, max %d", n, gp, gm), n, []int{gp, gm})
+			}
+		}
+	}
+	// save a snapshot, then a fresh store object loads it: same rule at rest, and monotone while it loads
+	if s2 := c.refs["a"].S; s2.OpLog().Len() > 0 {
+		ctx := context.Background()
+		if _, err := basestore.SaveSnapshot(ctx, s2); err != nil {
+			r.res.note("%s: SaveSnapshot: %v", b.ID, err)
+		} else {
+			r.checkMonotone(s2.ReplicationStatus(), "store a after SaveSnapshot")
+			want := s2.OpLog().Len()
+			n := c.nodes["a"]
+			p := n.P
+			if err := n.Close(); err == nil {
+				if nn, err := p.Start(""); err == nil {
+					c.nodes["a"] = nn
+					if ref, err := nn.Open(c.addr, realType(c.stype), c.openOpts()); err == nil {
+						c.refs["a"] = ref
+						if err := ref.S.LoadFromSnapshot(ctx); err != nil {
+							r.res.note("%s: LoadFromSnapshot: %v", b.ID, err)
+						} else if err := c.settle(); err == nil {
+							s3 := ref.S
+							r.checkMonotone(s3.ReplicationStatus(), "store a loading a snapshot")
+							cnt, gm, gp := s3.OpLog().Len(), s3.ReplicationStatus().GetMax(), s3.ReplicationStatus().GetProgress()
+							maxT := 0
+							for _, e := range s3.OpLog().GetEntries().Slice() {
+								if t := e.GetClock().GetTime(); t > maxT {
+									maxT = t
+								}
+							}
+							r.res.Comparisons++
+							r.res.Stats["snapshot_loads"]++
+							if cnt == want && (gp != gm || gm < maxT || gm > cnt) {
+								r.violate("rest", fmt.Sprintf("at rest after loading a snapshot of %d entries (largest time %d): progress %d, max %d", cnt, maxT, gp, gm), cnt, []int{gp, gm})
+							}
+						}
+					}
+				}
 			}
 		}
 	}
